@@ -91,6 +91,20 @@ reg(part('lib_root', 'src/lib.rs', '', only_items=['use crate::memchr::{*']))
 # crate-root re-exports of the names that exist in the extracted `memchr` module (lib.rs also re-exports the three
 # memrchrN_iter adapters, which are not extracted)
 reg(part('root_reexport', None, ''))
+# the union-reading glue of the meta searcher (everything except constructing / calling through the fn pointers)
+reg(part('memmem_glue', 'src/memmem/searcher.rs', 'memmem::searcher',
+         only_items=['struct Searcher', 'union SearcherKind', 'struct TwoWayWithPrefilter', 'fn searcher_kind_empty',
+                     'fn searcher_kind_one_byte', 'fn searcher_kind_two_way', 'fn searcher_kind_two_way_with_prefilter',
+                     'fn searcher_kind_sse2', 'fn searcher_kind_avx2', 'union PrefilterKind', 'fn prefilter_kind_fallback',
+                     'fn prefilter_kind_sse2', 'fn prefilter_kind_avx2'],
+         drop_fields=['Searcher.call', 'SearcherKind.simd128', 'SearcherKind.neon', 'PrefilterKind.simd128', 'PrefilterKind.neon']))
+# memmem_pre with the `kind` union field of Prefilter kept (for builds that contain memmem_glue)
+reg(part('memmem_pre_full', 'src/memmem/searcher.rs', 'memmem::searcher',
+         only_items=['struct PrefilterState', 'impl PrefilterState', 'struct Pre', 'impl Pre', 'fn do_packed_search',
+                     'struct Prefilter', 'impl Prefilter'],
+         drop_fields=['Prefilter.call'],
+         drop_items=['impl Prefilter::fn fallback', 'impl Prefilter::fn sse2', 'impl Prefilter::fn avx2',
+                     'impl Prefilter::fn simd128', 'impl Prefilter::fn neon', 'impl Prefilter::fn find']))
 reg(part('memmem_reexport', 'src/memmem/mod.rs', 'memmem', only_items=['use crate::memmem::searcher::Pre']))
 
 P0 = ['prelude/vbase.vrs']
@@ -102,6 +116,11 @@ BUILDS = {
                         'generic_packedpair', 'sse2_packedpair', 'avx2_packedpair', 'memmem_reexport', 'memmem_pre',
                         'all_twoway'],
                  prelude=P0 + ['prelude/x_eqrk.vrs', 'prelude/x_pp.vrs', 'prelude/x_tw.vrs', 'prelude/hist.vrs']),
+    'dev_glue': dict(parts=['ext', 'vector', 'generic_memchr', 'sse2_memchr', 'avx2_memchr', 'all_memchr', 'x86_64_memchr',
+                            'memchr_top', 'root_reexport', 'all_mod', 'all_rabinkarp', 'all_packedpair', 'all_default_rank',
+                            'generic_packedpair', 'sse2_packedpair', 'avx2_packedpair', 'memmem_reexport', 'memmem_pre_full',
+                            'memmem_glue', 'all_twoway'],
+                     prelude=P0 + ['prelude/x_eqrk.vrs', 'prelude/x_pp.vrs', 'prelude/x_tw.vrs', 'prelude/x_glue.vrs']),
     # S variant (release semantics, type invariants only): decides C05 for the packed-pair finders
     'safe': dict(parts=['ext', 'stub_root', 's_vector', 's_all_mod', 's_all_packedpair', 'all_default_rank',
                         's_generic_packedpair', 's_sse2_packedpair', 's_avx2_packedpair'],
